@@ -54,7 +54,7 @@ func newIm0data(pc uint16, d []uint8, base Memory) *im0data {
 }
 
 func (im0 *im0data) Get(addr uint16) uint8 {
-	if addr < im0.start || addr > im0.end {
+	if addr-im0.start > im0.end-im0.start {
 		// delegate to base Memory for out of range.
 		return im0.base.Get(addr)
 	}
@@ -62,7 +62,7 @@ func (im0 *im0data) Get(addr uint16) uint8 {
 }
 
 func (im0 *im0data) Set(addr uint16, value uint8) {
-	if addr >= im0.start && addr <= im0.end {
+	if addr-im0.start <= im0.end-im0.start {
 		// invalid opepration, nothing to do.
 		return
 	}
